@@ -576,6 +576,12 @@ def defer_programs(ctx):
     progs = b_programs(r, ctx.quick)
 
     def one(i):
+        try:
+            return one_(i)
+        except OSError as e:          # binary being replaced, disk full, ...: infrastructure
+            return dict(skip="OSError: %s" % e)
+
+    def one_(i):
         prog, fl = progs[i]
         d = os.path.join(ctx.work, "b%d" % i)
         src = G.go_program(prog, fl)
@@ -652,8 +658,8 @@ def defer_programs(ctx):
     def run_shard(s):
         k, cs = s
         return k, len(cs), coq_eval(ctx, "b_%d" % k, "Definition cases : list bcase := [\n" + ";\n".join(cs) + "].\n",
-                                    [("MI", "bmismatches_impl cases"), ("MS", "bmismatches_spec cases"), ("CL", "bclasses cases")])
-    impl_bad, spec_bad, evaluated = set(), set(), set()
+                                    [("MI", "bmismatches_impl cases"), ("MS", "bmismatches_spec cases"), ("CL", "bclasses cases"), ("BF", "bblockflags cases")])
+    impl_bad, spec_bad, evaluated, blockflag = set(), set(), set(), set()
     for k, n, (res, log) in C.parallel_map(run_shard, shards):
         if res is None:
             if infra(None, log):
@@ -663,6 +669,7 @@ def defer_programs(ctx):
             continue
         impl_bad |= {idxmap[k + j] for j in res["MI"]}
         spec_bad |= {idxmap[k + j] for j in res["MS"]}
+        blockflag |= {idxmap[k + j] for j in res["BF"]}
         for j, c in enumerate(res["CL"]):
             results[idxmap[k + j]]["_class"] = c
             evaluated.add(idxmap[k + j])
@@ -676,6 +683,13 @@ def defer_programs(ctx):
         cl = res.get("_class")
         if cl is not None:
             classes[cl] = classes.get(cl, 0) + 1
+        if res.get("_differs") and i in blockflag and i not in spec_bad:
+            # suspension is not modelled by ImplPanic; SpecPanic's ghost flag delimits the recorded finding
+            nknown += 1
+            ctx.violation("blocked-deferred-panic-recovered-by-caller-continues",
+                          "a deferred call really blocks while a panic is in flight and the panic is then recovered by a deferred call of an outer frame: "
+                          "the inner function returns normally and its caller's body continues after the call", rep)
+            continue
         if res.get("_differs"):
             if cl is None:
                 note_skip(ctx, "defer program %d differs from Go but the models could not be evaluated" % i)
@@ -693,6 +707,7 @@ def defer_programs(ctx):
         if i in spec_bad:
             ctx.violation("specpanic-vs-native-go", "SpecPanic (Coq Go-specification machine) and native Go disagree", rep, concrete=False)
     dist["model_classes"] = {str(k): v for k, v in sorted(classes.items())}
+    dist["programs_in_blocked_panic_class"] = len(blockflag)
     dist["programs_differing_from_go_as_predicted"] = nknown
     ctx.cov["b_distribution"] = dist
     ctx.cov["b_programs"] = len(progs)
